@@ -64,6 +64,8 @@ var plans = map[string]Plan{
 			{Test: "^TestProps$/^hdl_history$", Checks: checks(250, 8000), Shards: shards(4, 16)},
 			{Test: "^TestProps$/^sim_join$", Checks: checks(600, 20000), Shards: shards(2, 8)},
 			{Test: "^TestProps$/^hdl_join$", Checks: checks(250, 8000), Shards: shards(2, 8)},
+			{Test: "^TestProps$/^sim_graph$", Checks: checks(600, 20000), Shards: shards(2, 8)},
+			{Test: "^TestProps$/^hdl_graph$", Checks: checks(200, 6000), Shards: shards(4, 16)},
 		},
 		Assumptions: []string{
 			"per-opcode delay maps are single-valued (a multi-valued distribution samples the global math/rand/v2 source)",
